@@ -130,7 +130,8 @@ def ellipse_distance(a, b, x, y):
 
 def check_metric(case):
     c, u, v, th0, e, dirn, turns, pos, sub = case["arg"]
-    cf, uf, vf = c02.fpt(c), c02.fpt(u), c02.fpt(v)
+    U = case.get("unit", 1.0)          # the same arc in another unit of length (the bounds are relative to the larger radius)
+    cf, uf, vf = [tuple(x * U for x in c02.fpt(q)) for q in (c, u, v)]
     a, b = math.hypot(*uf), math.hypot(*vf)
     rot = math.atan2(uf[1], uf[0])
     cr, sr = math.cos(rot), math.sin(rot)
@@ -151,7 +152,7 @@ def check_metric(case):
         x, y = p.x - cf[0], p.y - cf[1]
         return ellipse_distance(a, b, x * cr + y * sr, -x * sr + y * cr)
     dis = []
-    A, B = P(f(0.0)[0] - 30, f(0.0)[1] + 11), P(f(1.0)[0] + 17, f(1.0)[1] - 9)
+    A, B = P(f(0.0)[0] - 30 * U, f(0.0)[1] + 11 * U), P(f(1.0)[0] + 17 * U, f(1.0)[1] - 9 * U)
     for degree in ("cubic", "quad"):
         bound = 1e-3 if degree == "cubic" else 1e-2
         arc = mk()
@@ -210,13 +211,14 @@ def check_metric(case):
                     break
             for i in range(len(ch) - 1):
                 d = dist(ch[i].end)
-                if d > 1e-9 * max(1.0, rmax):
+                if d > 1e-9 * max(U, rmax):
                     dis.append({"clause": "JointOffArc", "detail": "%s: joint %d at %r is %.3g away from the ellipse" % (w2, i, ch[i].end, d)})
                     break
             worst = 0.0
             for g in ch:
-                for j in range(33):
-                    worst = max(worst, dist(g.point(j / 32.0)))
+                ns = case.get("samples", 32)
+                for j in range(ns + 1):
+                    worst = max(worst, dist(g.point(j / float(ns))))
             devs.append(worst / rmax)
             if bounded and worst / rmax > bound:
                 dis.append({"clause": "ErrorBound", "degree": degree, "rel_dev": worst / rmax,
@@ -248,9 +250,17 @@ def check_case(case):
     return {"dis": dis, "nontrivial": True, "class": case["kind"], "checked": ["ChainEnds", "Connected", "JointOffArc", "ErrorBound", "NotShrinking", "NeighbourChanged"]}
 
 
-def cases_from_dump(path):
+UNITS = [1e-3, 12345.0, 1e5, 0.37, 1.0 / 64]
+
+
+def cases_from_dump(path, seed=0, samples=32):
+    n = 0
     for st in engine.read_dump(path):
-        yield {"kind": st["kind"], "arg": st["arg"], "exp": st["exp"]}
+        n += 1
+        case = {"kind": st["kind"], "arg": st["arg"], "exp": st["exp"], "samples": samples}
+        if st["kind"] != "struct" and n % 3 == 0:
+            case["unit"] = UNITS[(n // 3 + seed) % len(UNITS)]      # every third arc in another unit of length
+        yield case
 
 
 def run(tier, seed):
@@ -261,7 +271,7 @@ def run(tier, seed):
         res = engine.run_tlc(work, "MC_C19", constants=consts, invariants=["StaysConnected", "CountRight", "EndsKept"])
         run.add_tlc(res, "ArcApprox structural contract + arc table, %s" % consts)
         n = 0
-        for case, r in engine.replay("harness.c19", cases_from_dump(res["dump"]), chunk=100):
+        for case, r in engine.replay("harness.c19", cases_from_dump(res["dump"], seed, 12 if tier == "quick" else 32), chunk=100):
             run.record(case, r, key=str(case["arg"]))
             if n % 1500 == 5:
                 run.sample(case)
@@ -272,7 +282,7 @@ def run(tier, seed):
     run.rule = ("cases = initial states of MC_C19: 27 abstract paths (line / arc / zero-extent arc at each of 3 positions) x slice counts x 4 APIs; "
                 "arc table (radii ratios 1..100, rotations, 4 start angles, extents from 0.02 rad to 450 degrees, both directions) x position in a path x "
                 "5 subdivision settings x {cubic, quadratic}")
-    run.assumptions = ["deviation = true distance to the ellipse (Newton on the parameter) at 33 samples per curve, not a supremum",
+    run.assumptions = ["deviation = true distance to the ellipse (Newton on the parameter) at 13 (quick) or 33 (thorough) samples per curve, not a supremum",
                        "bounds 1e-3 (cubic) / 1e-2 (quadratic) x larger radius at the segment default (30 degree slices) and the path default (error=0.1)"]
     return run.finish()
 
